@@ -112,13 +112,13 @@ def one_run(w, work, idx, inject=None, fsize=None, only=None, cont=False, post=F
         env["VERIF_ONLY_STEP"] = str(only)
     if cont:
         env["VERIF_CONTINUE"] = "1"
-    p = subprocess.run(cmd, env=env, stdout=subprocess.PIPE, stderr=subprocess.PIPE, text=True, timeout=120)
-    rd = subprocess.run([w, "read", os.path.join(d, "assets")], stdout=subprocess.PIPE, stderr=subprocess.PIPE, text=True, timeout=60)
+    p = subprocess.run(cmd, env=env, stdout=subprocess.PIPE, stderr=subprocess.PIPE, text=True, errors="replace", timeout=120)
+    rd = subprocess.run([w, "read", os.path.join(d, "assets")], stdout=subprocess.PIPE, stderr=subprocess.PIPE, text=True, errors="replace", timeout=60)
     post_out = None
     if post:
         # crash recovery: a fresh process loads the directory and performs one small healthy store
-        ps = subprocess.run([w, "poststore", os.path.join(d, "assets")], stdout=subprocess.PIPE, stderr=subprocess.PIPE, text=True, timeout=60)
-        rd2 = subprocess.run([w, "read", os.path.join(d, "assets")], stdout=subprocess.PIPE, stderr=subprocess.PIPE, text=True, timeout=60)
+        ps = subprocess.run([w, "poststore", os.path.join(d, "assets")], stdout=subprocess.PIPE, stderr=subprocess.PIPE, text=True, errors="replace", timeout=60)
+        rd2 = subprocess.run([w, "read", os.path.join(d, "assets")], stdout=subprocess.PIPE, stderr=subprocess.PIPE, text=True, errors="replace", timeout=60)
         post_out = (ps.stdout.strip().splitlines() or ["POST-NOTHING"])[-1], (rd2.stdout.strip().splitlines() or ["READ-NOTHING"])[-1]
     steps = []
     if os.path.exists(res):
